@@ -29,7 +29,7 @@ type vxC06Step struct {
 	Op    string `json:"op"`              // submit answer cancel nodecut connclose check
 	N     int    `json:"n,omitempty"`     // submit: callers; answer/cancel: how many
 	Key   int    `json:"key,omitempty"`   // selects which outstanding callers (rotation)
-	Mode  int    `json:"mode,omitempty"`  // nodecut: 0 between frames, 1 inside a header, 2 inside a body; answer: 1 = ERROR frames; submit: 1 = with a custom payload (a frame-build failure below protocol 4)
+	Mode  int    `json:"mode,omitempty"`  // nodecut: 0 between frames, 1 inside a header, 2 inside a body; answer: 1 = ERROR frames, 2 = rows in a frame stamped with another protocol version; submit: 1 = with a custom payload (a frame-build failure below protocol 4)
 }
 
 type vxC06Case struct {
@@ -76,7 +76,7 @@ func vxDrawC06(t *rapid.T) *vxC06Case {
 			}
 		case "answer":
 			st.N = rapid.IntRange(1, 10).Draw(t, "n")
-			st.Mode = rapid.IntRange(0, 3).Draw(t, "amode") / 3
+			st.Mode = []int{0, 0, 0, 1, 2}[rapid.IntRange(0, 4).Draw(t, "amode")]
 		case "cancel":
 			st.N = rapid.IntRange(1, 4).Draw(t, "n")
 		case "nodecut":
@@ -96,6 +96,7 @@ type vxC06Caller struct {
 	returns  int32
 	answered bool // an answer (row or error frame) was sent for it
 	asErr    bool
+	wrongVer bool // its answer was stamped with another protocol version
 	canceled bool
 	doomed   bool // its connection was cut/closed, or the session was closed, while it was outstanding
 	buildFails bool // its frame cannot be built (custom payload below protocol 4): must end with an error, nothing sent
@@ -246,6 +247,31 @@ func vxRunC06(c *vxC06Case, k *vstats.Case) error {
 		}
 		return nil
 	}
+	// waitDecided: after a connection was cut, every outstanding caller returns - except one whose request
+	// was submitted so late that it travelled on the replacement connection and is held there by the node
+	// (submit steps start their callers asynchronously).
+	waitDecided := func(who []*vxC06Caller, why string) error {
+		deadline := time.Now().Add(12 * time.Second)
+		for _, cr := range who {
+			for {
+				select {
+				case <-cr.done:
+				default:
+					if mon.isHeld(cr.tok) {
+						break
+					}
+					if time.Now().After(deadline) {
+						return fmt.Errorf("caller of %s did not return within 12 s after %s:\n%s", cr.tok, why, vxGoroutineDump())
+					}
+					time.Sleep(500 * time.Microsecond)
+					mon.dropClosed()
+					continue
+				}
+				break
+			}
+		}
+		return nil
+	}
 	markDoomed := func() {
 		for _, cr := range outstanding() {
 			cr.doomed = true
@@ -300,8 +326,8 @@ func vxRunC06(c *vxC06Case, k *vstats.Case) error {
 				tok := toks[(st.Key+i*7)%len(toks)]
 				for _, cr := range callers {
 					if cr.tok == tok && !cr.answered {
-						cr.answered, cr.asErr = true, st.Mode == 1
-						if mon.answer(tok, st.Mode == 1) {
+						cr.answered, cr.asErr, cr.wrongVer = true, st.Mode == 1, st.Mode == 2
+						if mon.answerMode(tok, st.Mode) {
 							who = append(who, cr)
 						}
 					}
@@ -340,11 +366,8 @@ func vxRunC06(c *vxC06Case, k *vstats.Case) error {
 				}
 				sc.Close()
 			}
-			mon.mu.Lock()
-			mon.held = map[string]*vxC01Held{}
-			mon.outstanding = map[int]map[int]string{}
-			mon.mu.Unlock()
-			if err := waitReturned(outstanding(), fmt.Sprintf("step %d cut their connection (mode %d)", si, st.Mode)); err != nil {
+			mon.dropClosed()
+			if err := waitDecided(outstanding(), fmt.Sprintf("step %d cut their connection (mode %d)", si, st.Mode)); err != nil {
 				return err
 			}
 		case "connclose":
@@ -360,11 +383,8 @@ func vxRunC06(c *vxC06Case, k *vstats.Case) error {
 					return fmt.Errorf("step %d: Conn.Close did not return within 12 s:\n%s", si, vxGoroutineDump())
 				}
 			}
-			mon.mu.Lock()
-			mon.held = map[string]*vxC01Held{}
-			mon.outstanding = map[int]map[int]string{}
-			mon.mu.Unlock()
-			if err := waitReturned(outstanding(), fmt.Sprintf("step %d closed their connection", si)); err != nil {
+			mon.dropClosed()
+			if err := waitDecided(outstanding(), fmt.Sprintf("step %d closed their connection", si)); err != nil {
 				return err
 			}
 		case "wait":
@@ -440,7 +460,14 @@ func vxRunC06(c *vxC06Case, k *vstats.Case) error {
 		switch {
 		case cr.buildFails:
 			k.Class("outcome=frame-build-refused")
+		case cr.wrongVer && err != nil && !errors.Is(err, context.Canceled):
+			// a response of another protocol version: refusing it is the code's convention (accepting the
+			// row would be as good); what is judged is one return and the stream (check steps)
+			k.Class("outcome=wrong-version-answer-refused")
 		case err == nil:
+			if cr.wrongVer {
+				k.Class("outcome=wrong-version-answer-accepted")
+			}
 			if got != cr.tok || !cr.answered || cr.asErr {
 				return fmt.Errorf("caller of %s returned success (row %q) but answered=%v asErr=%v", cr.tok, got, cr.answered, cr.asErr)
 			}
